@@ -275,18 +275,427 @@ def classify_mc(c, io, drv):
 
 
 # ----------------------------------------------------------------------------------------------
+# durations and piecewise-linear shapes: line, fadein, fadeout, ones, zeros, impulse, adsr, attack
+# ----------------------------------------------------------------------------------------------
+TOL = F(1, 10 ** 9)
+INF = float("inf")
+
+
+def is_dyadic(q, bits=40):
+    d = Fraction(q).denominator
+    return d & (d - 1) == 0 and d <= 2 ** bits
+
+
+def num(rng, q, allow_float=True):
+    """transport form of a rational with a Python type chosen for it"""
+    return {"v": enc(q), "t": typ_for(q, rng, allow_float and is_dyadic(q))}
+
+
+def pv(a):
+    return py(a["v"], a["t"])
+
+
+def qv(a):
+    return dec(a["v"])
+
+
+def gen_dur(rng):
+    r = rng.random()
+    if r < 0.35:
+        return F(rng.randint(0, 24), 1)
+    if r < 0.55:
+        return F(rng.randint(-4, 48), 2)                       # includes the x.5 rounding boundary
+    if r < 0.8:
+        return F(rng.randint(-8, 160), rng.choice([4, 8, 16]))
+    if r < 0.9:
+        return F(rng.randint(1, 90), rng.choice([3, 5, 7, 10]))  # not dyadic: float regime
+    return F(rng.choice([0, 0, 1, 1, 2]))
+
+
+def same_vals(got, exp, exact):
+    """got, exp: lists of Fractions"""
+    if got == exp:
+        return True
+    if exact or len(got) != len(exp):
+        return False
+    return all(abs(a - b) <= TOL * (1 + abs(b)) for a, b in zip(got, exp))
+
+
+def cmp_except(c, io, drv, exact, label):
+    """model = {"err": E} | {"out": [...]}, spec = [...]; io = {"out", "end"}"""
+    res = []
+    got = [dec(x) for x in io["out"]]
+    spec = [dec(x) for x in drv["spec"]] if drv["spec"] is not None else None
+    m = drv["model"]
+    if "err" in m:
+        as_coded = (got == [] and io["end"] == m["err"])
+        as_spec = spec is not None and io["end"] == "stop" and same_vals(got, spec, exact)
+        if not (as_coded or as_spec):
+            res.append(("model", "%s: impl=%s/%s, the code as modelled raises %s" % (label, io["out"], io["end"], m["err"])))
+        if spec is not None and not as_spec:
+            res.append(("spec", "%s: impl=%s/%s spec=%s" % (label, io["out"], io["end"], drv["spec"])))
+        return res
+    mod = [dec(x) for x in m["out"]]
+    exp_end = c.get("exp_end", "stop")
+    if exp_end == "auto":
+        exp_end = "fuel" if len(mod) == c["n"] else "stop"
+    if not same_vals(got, mod, exact) or io["end"] != exp_end:
+        res.append(("model", "%s: impl=%s/%s model=%s/%s" % (label, io["out"], io["end"], m["out"], exp_end)))
+    if spec is None or not same_vals(got, spec, exact) or io["end"] != exp_end:
+        res.append(("spec", "%s: impl=%s/%s spec=%s/%s" % (label, io["out"], io["end"], drv["spec"], exp_end)))
+    return res
+
+
+FUEL = 400
+
+
+# --- line / fades -------------------------------------------------------------------------------
+def gen_line(rng, tier, scale):
+    cases = []
+    k = (260 if tier == "quick" else 6000) * scale
+    for _ in range(k):
+        dur = gen_dur(rng)
+        fin = rng.random() < 0.4
+        b = dyadic(rng) if rng.random() < 0.8 else F(rng.randint(-9, 9), rng.choice([3, 5, 6]))
+        den = dur - (1 if fin else 0)
+        if rng.random() < 0.6 and den != 0:
+            e = b + den * dyadic(rng)                      # dyadic slope: exact regime
+        else:
+            e = dyadic(rng)
+        cases.append({"entry": "line", "dur": num(rng, dur), "begin": num(rng, b), "end": num(rng, e),
+                      "finish": fin, "how": rng.choice(["pos", "kw"])})
+    for _ in range(k // 4):
+        cases.append({"entry": rng.choice(["fadein", "fadeout"]), "dur": num(rng, gen_dur(rng))})
+    return cases
+
+
+def line_exact(c):
+    if c["entry"] == "line":
+        dur, b, e = qv(c["dur"]), qv(c["begin"]), qv(c["end"])
+        den = dur - (1 if c["finish"] else 0)
+    else:
+        dur, b, e = qv(c["dur"]), F(0), F(1)
+        den = dur
+    if den == 0:
+        return True
+    return is_dyadic(dur, 20) and is_dyadic(b, 20) and is_dyadic(e, 20) and is_dyadic((e - b) / den, 20)
+
+
+def impl_line(c):
+    from audiolazy import line, fadein, fadeout
+    try:
+        if c["entry"] == "line":
+            if c.get("how") == "kw":
+                s = line(dur=pv(c["dur"]), begin=pv(c["begin"]), end=pv(c["end"]), finish=c["finish"])
+            else:
+                s = line(pv(c["dur"]), pv(c["begin"]), pv(c["end"]), c["finish"])
+        elif c["entry"] == "fadein":
+            s = fadein(pv(c["dur"]))
+        else:
+            s = fadeout(pv(c["dur"]))
+    except Exception as e:
+        return {"out": [], "end": err_kind(e)}
+    out, end = drain(s, FUEL)
+    return {"out": [enc(x) for x in out], "end": end}
+
+
+def req_line(c):
+    r = {"entry": c["entry"], "dur": c["dur"]["v"]}
+    if c["entry"] == "line":
+        r.update(begin=c["begin"]["v"], end=c["end"]["v"], finish=c["finish"])
+    return r
+
+
+def cmp_line(c, io, drv):
+    return cmp_except(c, io, drv, line_exact(c), c["entry"])
+
+
+def tally_line(eng, c, io):
+    eng.count("line_regime", "exact" if line_exact(c) else "float")
+    eng.count("line_len", min(len(io["out"]) // 4 * 4, 40))
+    eng.count("line_end", io["end"])
+    d = qv(c["dur"])
+    eng.count("dur_kind", "half" if (d * 2).denominator == 1 and d.denominator == 2 else
+              ("int" if d.denominator == 1 else "frac"))
+
+
+def classify_line(c, io, drv):
+    den = qv(c["dur"]) - (1 if c.get("finish") else 0)
+    if io["end"] == "ZeroDivisionError":
+        return "line:ZeroDivisionError:dur-finish=0" if den == 0 else "line:ZeroDivisionError:dur-finish!=0"
+    if io["end"] != "stop":
+        return "%s:%s" % (c["entry"], io["end"])
+    return "%s:values" % c["entry"]
+
+
+def shrink_num_fields(c, fields):
+    for k in fields:
+        a = c[k]
+        q = qv(a)
+        for r in (F(int(q)), F(0), F(1), F(2), q / 2):
+            if r != q and abs(r) <= abs(q) + 2:
+                yield dict(c, **{k: {"v": enc(r), "t": a["t"] if (a["t"] != "i" or r.denominator == 1) else "F"}})
+        if a["t"] != "F":
+            yield dict(c, **{k: dict(a, t="F")})
+
+
+def shrink_line(c):
+    fs = ["dur"] + (["begin", "end"] if c["entry"] == "line" else [])
+    for x in shrink_num_fields(c, fs):
+        yield x
+    if c.get("finish"):
+        yield dict(c, finish=False)
+
+
+def neigh_line(c):
+    q = qv(c["dur"])
+    for d in (F(1), F(-1), F(1, 2), F(-1, 2), F(1, 4)):
+        if q + d >= 0:
+            yield dict(c, dur={"v": enc(q + d), "t": "F"})
+    if c["entry"] == "line":
+        yield dict(c, finish=not c["finish"])
+
+
+# --- ones / zeros / impulse -----------------------------------------------------------------------
+def gen_const(rng, tier, scale):
+    cases = []
+    k = (120 if tier == "quick" else 2500) * scale
+    for _ in range(k):
+        what = rng.choice(["ones", "zeros", "zeroes", "impulse"])
+        r = rng.random()
+        if r < 0.1:
+            dur = None
+        elif r < 0.2:
+            dur = "inf"
+        else:
+            d = gen_dur(rng)
+            if rng.random() < 0.15:
+                d = -d
+            dur = num(rng, d)
+        c = {"entry": what, "dur": dur, "n": rng.choice([0, 1, 2, 5, 30, 60, 100]), "exp_end": "auto"}
+        if what == "impulse" and rng.random() < 0.5:
+            c["one"] = rng.choice([7, "one", [1, 2], None, -1])
+            c["zero"] = rng.choice([0, "zero", None, [0], 3])
+        cases.append(c)
+    return cases
+
+
+def _dur_py(d):
+    return None if d is None else (INF if d == "inf" else pv(d))
+
+
+def impl_const(c):
+    import audiolazy
+    f = getattr(audiolazy, c["entry"])
+    try:
+        if c["entry"] == "impulse" and "one" in c:
+            s = f(_dur_py(c["dur"]), one=c["one"], zero=c["zero"])
+        elif c["dur"] is None and c["n"] % 2:
+            s = f()
+        else:
+            s = f(_dur_py(c["dur"]))
+    except Exception as e:
+        return {"out": [], "end": err_kind(e)}
+    out, end = drain(s, c["n"])
+    if c["entry"] == "impulse" and "one" in c:
+        return {"out": out, "end": end}
+    return {"out": [enc(x) for x in out], "end": end}
+
+
+def req_const(c):
+    dur = None if c["dur"] in (None, "inf") else c["dur"]["v"]
+    if c["entry"] == "impulse":
+        r = {"entry": "impulse", "dur": dur, "n": c["n"]}
+        if "one" in c:
+            r.update(one=c["one"], zero=c["zero"])
+        return r
+    return {"entry": "const", "v": 1 if c["entry"] == "ones" else 0, "dur": dur, "n": c["n"]}
+
+
+def cmp_const(c, io, drv):
+    res = []
+    exp_end = "fuel" if len(drv["model"]) == c["n"] else "stop"
+    if io["out"] != drv["model"] or io["end"] != exp_end:
+        res.append(("model", "%s: impl=%s/%s model=%s/%s" % (c["entry"], io["out"], io["end"], drv["model"], exp_end)))
+    if io["out"] != drv["spec"] or io["end"] != exp_end:
+        res.append(("spec", "%s: impl=%s/%s spec=%s/%s" % (c["entry"], io["out"], io["end"], drv["spec"], exp_end)))
+    return res
+
+
+def tally_const(eng, c, io):
+    eng.count("const_dur", "None" if c["dur"] is None else ("inf" if c["dur"] == "inf" else
+              ("neg" if qv(c["dur"]) < 0 else "finite")))
+    eng.count("const_end", io["end"])
+
+
+def shrink_const(c):
+    if c["n"] > 0:
+        yield dict(c, n=c["n"] - 1)
+        yield dict(c, n=c["n"] // 2)
+    if isinstance(c["dur"], dict):
+        for x in shrink_num_fields(c, ["dur"]):
+            yield x
+    if "one" in c:
+        yield {k: v for k, v in c.items() if k not in ("one", "zero")}
+
+
+def neigh_const(c):
+    if isinstance(c["dur"], dict):
+        q = qv(c["dur"])
+        for d in (F(1), F(-1), F(1, 2), F(-1, 2), F(1, 4)):
+            yield dict(c, dur={"v": enc(q + d), "t": "F"}, n=max(c["n"], int(q) + 3))
+
+
+def classify_const(c, io, drv):
+    if io["end"] not in ("stop", "fuel"):
+        return "%s:%s" % (c["entry"], io["end"])
+    return "%s:%s" % (c["entry"], "length" if len(io["out"]) != len(drv["spec"]) else "values")
+
+
+# --- adsr / attack ---------------------------------------------------------------------------------
+def gen_time(rng, zero_rate=0.04):
+    r = rng.random()
+    if r < zero_rate:
+        return F(0)
+    if r < 0.5:
+        return F(2) ** rng.randint(-2, 4)                      # 1/a dyadic: exact regime
+    if r < 0.8:
+        return F(rng.randint(1, 40), rng.choice([1, 2, 4]))
+    return F(rng.randint(1, 30), rng.choice([3, 5]))
+
+
+def gen_adsr(rng, tier, scale):
+    cases = []
+    k = (200 if tier == "quick" else 5000) * scale
+    for _ in range(k):
+        a, d, r = gen_time(rng), gen_time(rng), gen_time(rng)
+        s = dyadic(rng) / 8 if rng.random() < 0.8 else F(rng.randint(0, 9), 10)
+        if rng.random() < 0.5:
+            a, d, r = min(a, 8), min(d, 8), min(r, 8)
+        dur = a + d + r + gen_dur(rng) if rng.random() < 0.75 else gen_dur(rng)
+        cases.append({"entry": "adsr", "dur": num(rng, dur), "a": num(rng, a), "d": num(rng, d),
+                      "s": num(rng, s), "r": num(rng, r), "how": rng.choice(["pos", "kw"])})
+    for _ in range(k // 2):
+        a, d = gen_time(rng), gen_time(rng)
+        a, d = min(a, 10), min(d, 10)
+        n = rng.choice([1, 3, 10, 25, 40])
+        if rng.random() < 0.5:
+            s = {"num": enc(dyadic(rng) / 8)}
+            s["t"] = typ_for(dec(s["num"]), rng)
+        else:
+            xs = [dyadic(rng) / 8 for _ in range(rng.randint(1, 12))]
+            s = {"strm": [enc(x) for x in xs], "ts": [typ_for(x, rng) for x in xs],
+                 "kind": rng.choice(["list", "iter", "Stream", "tuple"])}
+        cases.append({"entry": "attack", "a": num(rng, a), "d": num(rng, d), "s": s, "n": n, "exp_end": "auto"})
+    return cases
+
+
+def adsr_exact(c):
+    a, d = qv(c["a"]), qv(c["d"])
+    if c["entry"] == "adsr":
+        s, r, dur = qv(c["s"]), qv(c["r"]), qv(c["dur"])
+        if 0 in (a, d, r):
+            return True
+        return all(is_dyadic(x, 20) for x in (dur, a, d, r, s, 1 / a, (s - 1) / d, s / r))
+    if 0 in (a, d):
+        return True
+    sa = c["s"]
+    s0 = dec(sa["num"]) if "num" in sa else dec(sa["strm"][0])
+    return all(is_dyadic(x, 20) for x in (a, d, 1 / a, (s0 - 1) / d))
+
+
+def impl_adsr(c):
+    from audiolazy import adsr, attack
+    try:
+        if c["entry"] == "adsr":
+            if c.get("how") == "kw":
+                s = adsr(dur=pv(c["dur"]), a=pv(c["a"]), d=pv(c["d"]), s=pv(c["s"]), r=pv(c["r"]))
+            else:
+                s = adsr(pv(c["dur"]), pv(c["a"]), pv(c["d"]), pv(c["s"]), pv(c["r"]))
+            n = FUEL
+        else:
+            s = attack(pv(c["a"]), pv(c["d"]), mc_build(c["s"]))
+            n = c["n"]
+    except Exception as e:
+        return {"out": [], "end": err_kind(e)}
+    out, end = drain(s, n)
+    return {"out": [enc(x) for x in out], "end": end}
+
+
+def req_adsr(c):
+    if c["entry"] == "adsr":
+        return {"entry": "adsr", "dur": c["dur"]["v"], "a": c["a"]["v"], "d": c["d"]["v"],
+                "s": c["s"]["v"], "r": c["r"]["v"]}
+    return {"entry": "attack", "a": c["a"]["v"], "d": c["d"]["v"], "n": c["n"],
+            "s": {k: v for k, v in c["s"].items() if k in ("num", "strm")}}
+
+
+def cmp_adsr(c, io, drv):
+    return cmp_except(c, io, drv, adsr_exact(c), c["entry"])
+
+
+def tally_adsr(eng, c, io):
+    eng.count(c["entry"] + "_regime", "exact" if adsr_exact(c) else "float")
+    eng.count(c["entry"] + "_end", io["end"])
+    if c["entry"] == "adsr":
+        ln = lambda k: int(qv(c[k]) + F(1, 2))
+        eng.count("adsr_fits", ln("a") + ln("d") + ln("r") <= ln("dur"))
+    else:
+        eng.count("attack_sustain", "number" if "num" in c["s"] else "stream")
+
+
+def classify_adsr(c, io, drv):
+    zero = [k for k in (("a", "d", "r") if c["entry"] == "adsr" else ("a", "d")) if qv(c[k]) == 0]
+    if io["end"] == "ZeroDivisionError":
+        return "%s:ZeroDivisionError:%s" % (c["entry"], "zero-time" if zero else "nonzero-times")
+    if io["end"] not in ("stop", "fuel"):
+        return "%s:%s" % (c["entry"], io["end"])
+    return "%s:values" % c["entry"]
+
+
+def shrink_adsr(c):
+    fs = ["dur", "a", "d", "s", "r"] if c["entry"] == "adsr" else ["a", "d"]
+    for x in shrink_num_fields(c, fs):
+        yield x
+    if c["entry"] == "attack":
+        if c["n"] > 1:
+            yield dict(c, n=c["n"] - 1)
+        s = c["s"]
+        if "strm" in s and len(s["strm"]) > 1:
+            yield dict(c, s=dict(s, strm=s["strm"][:-1], ts=s["ts"][:-1]))
+
+
+def neigh_adsr(c):
+    for k in (["dur", "a", "d", "r"] if c["entry"] == "adsr" else ["a", "d"]):
+        q = qv(c[k])
+        for d in (F(1), F(-1), F(1, 2), F(-1, 2)):
+            if q + d > 0:
+                yield dict(c, **{k: {"v": enc(q + d), "t": "F"}})
+
+
+# ----------------------------------------------------------------------------------------------
 # dispatch
 # ----------------------------------------------------------------------------------------------
 ENTRIES = {
     "modulo_counter": dict(gen=gen_mc, impl=impl_mc, cmp=cmp_mc, tally=tally_mc, shrink=shrink_mc,
                            neigh=neigh_mc, classify=classify_mc),
+    "line": dict(gen=gen_line, impl=impl_line, cmp=cmp_line, tally=tally_line, shrink=shrink_line,
+                 neigh=neigh_line, classify=classify_line, request=req_line),
+    "ones": dict(gen=gen_const, impl=impl_const, cmp=cmp_const, tally=tally_const, shrink=shrink_const,
+                 neigh=neigh_const, classify=classify_const, request=req_const),
+    "adsr": dict(gen=gen_adsr, impl=impl_adsr, cmp=cmp_adsr, tally=tally_adsr, shrink=shrink_adsr,
+                 neigh=neigh_adsr, classify=classify_adsr, request=req_adsr),
 }
+for _alias, _of in (("fadein", "line"), ("fadeout", "line"), ("zeros", "ones"), ("zeroes", "ones"),
+                    ("impulse", "ones"), ("attack", "adsr")):
+    ENTRIES[_alias] = dict(ENTRIES[_of], gen=None)
 
 
 def generate(rng, tier, scale=1):
     cases = []
     for name in sorted(ENTRIES):
-        cases.extend(ENTRIES[name]["gen"](rng, tier, scale))
+        if ENTRIES[name]["gen"]:
+            cases.extend(ENTRIES[name]["gen"](rng, tier, scale))
     return cases
 
 
